@@ -2,7 +2,7 @@
 
 A box is a dict name -> (lo, hi).  Predicates F and CARE are evaluated at the
 concrete points of the bit-range domain (product of the representable ranges);
-queries about *all alternative covers* use z3 Int endpoints.
+queries about *all alternative covers* use symbolic endpoints (one-hot over the value ranges).
 """
 import itertools
 
@@ -92,24 +92,47 @@ def check_cover(boxes, names, ranges, pts, F, CARE):
 
 
 class BoxVars:
-    """k symbolic boxes with Int endpoints."""
+    """k symbolic boxes; endpoints one-hot encoded over the (tiny) value ranges, so every
+    query below is purely propositional."""
 
     def __init__(self, k, names, ranges, tag='s'):
         self.k = k
         self.names = names
         self.ranges = ranges
-        self.lo = [[z3.Int(f'{tag}{j}_lo_{n}') for n in names] for j in range(k)]
-        self.hi = [[z3.Int(f'{tag}{j}_hi_{n}') for n in names] for j in range(k)]
+        self.L = [[{a: z3.Bool(f'{tag}{j}_lo_{n}_{a}') for a in range(lo, hi + 1)}
+                   for n, (lo, hi) in zip(names, ranges)] for j in range(k)]
+        self.H = [[{a: z3.Bool(f'{tag}{j}_hi_{n}_{a}') for a in range(lo, hi + 1)}
+                   for n, (lo, hi) in zip(names, ranges)] for j in range(k)]
+
+    @staticmethod
+    def _one(bs):
+        bs = list(bs)
+        cs = [z3.Or(bs)]
+        for i in range(len(bs)):
+            for j in range(i + 1, len(bs)):
+                cs.append(z3.Or(z3.Not(bs[i]), z3.Not(bs[j])))
+        return cs
 
     def wellformed(self):
         cs = []
         for j in range(self.k):
-            for d, (lo, hi) in enumerate(self.ranges):
-                cs += [lo <= self.lo[j][d], self.lo[j][d] <= self.hi[j][d], self.hi[j][d] <= hi]
+            for d in range(len(self.names)):
+                cs += self._one(self.L[j][d].values())
+                cs += self._one(self.H[j][d].values())
+                for a in self.L[j][d]:
+                    for b in self.H[j][d]:
+                        if a > b:
+                            cs.append(z3.Or(z3.Not(self.L[j][d][a]), z3.Not(self.H[j][d][b])))
         return cs
 
+    def _ge_lo(self, j, d, v):      # lo <= v
+        return z3.Or([b for a, b in self.L[j][d].items() if a <= v])
+
+    def _le_hi(self, j, d, v):      # v <= hi
+        return z3.Or([b for a, b in self.H[j][d].items() if a >= v])
+
     def contains(self, j, p):
-        return z3.And([z3.And(self.lo[j][d] <= v, v <= self.hi[j][d]) for d, v in enumerate(p)])
+        return z3.And([z3.And(self._ge_lo(j, d, v), self._le_hi(j, d, v)) for d, v in enumerate(p)])
 
     def implicants(self, bad):
         return [z3.Not(self.contains(j, p)) for j in range(self.k) for p in bad]
@@ -122,31 +145,43 @@ class BoxVars:
         cs = []
         for d, (lo, hi) in enumerate(self.ranges):
             def slab(p, side):
-                others = [z3.And(self.lo[j][e] <= v, v <= self.hi[j][e]) for e, v in enumerate(p) if e != d]
-                edge = (p[d] == self.lo[j][d] - 1) if side == 'lo' else (p[d] == self.hi[j][d] + 1)
+                others = [z3.And(self._ge_lo(j, e, v), self._le_hi(j, e, v)) for e, v in enumerate(p) if e != d]
+                if side == 'lo':
+                    if p[d] + 1 > hi:
+                        return z3.BoolVal(False)
+                    edge = self.L[j][d][p[d] + 1]
+                else:
+                    if p[d] - 1 < lo:
+                        return z3.BoolVal(False)
+                    edge = self.H[j][d][p[d] - 1]
                 return z3.And(others + [edge])
-            cs.append(z3.Or([self.lo[j][d] == lo] + [slab(p, 'lo') for p in bad]))
-            cs.append(z3.Or([self.hi[j][d] == hi] + [slab(p, 'hi') for p in bad]))
+            cs.append(z3.Or([self.L[j][d][lo]] + [slab(p, 'lo') for p in bad]))
+            cs.append(z3.Or([self.H[j][d][hi]] + [slab(p, 'hi') for p in bad]))
         return cs
 
     def equals(self, j, box):
-        return z3.And([z3.And(self.lo[j][d] == box[n][0], self.hi[j][d] == box[n][1])
-                       for d, n in enumerate(self.names)])
+        return z3.And([z3.And(self.L[j][d][box[n][0]], self.H[j][d][box[n][1]]) for d, n in enumerate(self.names)])
 
     def distinct(self):
         cs = []
         for i in range(self.k):
             for j in range(i + 1, self.k):
-                cs.append(z3.Or([z3.Or(self.lo[i][d] != self.lo[j][d], self.hi[i][d] != self.hi[j][d])
-                                 for d in range(len(self.names))]))
+                diff = []
+                for d in range(len(self.names)):
+                    diff += [z3.Xor(self.L[i][d][a], self.L[j][d][a]) for a in self.L[i][d]]
+                    diff += [z3.Xor(self.H[i][d][a], self.H[j][d][a]) for a in self.H[i][d]]
+                cs.append(z3.Or(diff))
         return cs
 
     def model_boxes(self, m):
         out = []
         for j in range(self.k):
-            out.append({n: (m.eval(self.lo[j][d], model_completion=True).as_long(),
-                            m.eval(self.hi[j][d], model_completion=True).as_long())
-                        for d, n in enumerate(self.names)})
+            b = {}
+            for d, n in enumerate(self.names):
+                lo = [a for a, v in self.L[j][d].items() if z3.is_true(m.eval(v, model_completion=True))]
+                hi = [a for a, v in self.H[j][d].items() if z3.is_true(m.eval(v, model_completion=True))]
+                b[n] = (lo[0], hi[0])
+            out.append(b)
         return out
 
 
@@ -167,6 +202,44 @@ def smaller_cover_exists(k, names, ranges, pts, F, CARE, timeout_ms=120000):
     r = str(sol.check())
     if r == 'sat':
         return r, bx.model_boxes(sol.model())
+    return r, None
+
+
+def explicit_primes(names, ranges, pts, F, CARE):
+    """All maximal boxes inside F \\/ ~CARE by brute force over every box of the domain."""
+    bad = {p for p in pts if CARE[p] and not F[p]}
+    spans = [[(a, b) for a in range(lo, hi + 1) for b in range(a, hi + 1)] for lo, hi in ranges]
+    impl = []
+    for combo in itertools.product(*spans):
+        b = dict(zip(names, combo))
+        if not any(in_box(b, names, p) for p in bad):
+            impl.append(b)
+
+    def inside(b, c):
+        return all(c[n][0] <= b[n][0] and b[n][1] <= c[n][1] for n in names)
+    return [b for b in impl if not any(b is not c and b != c and inside(b, c) for c in impl)]
+
+
+def smaller_cover_exists_setcover(k, names, ranges, pts, F, CARE, timeout_ms=300000):
+    """Second formulation of the same question: at most k of the explicitly enumerated maximal boxes cover F
+    (every cover by implicant boxes extends to one by maximal boxes of the same size)."""
+    on = [p for p in pts if F[p]]
+    if k < 0:
+        return 'unsat', None
+    primes = explicit_primes(names, ranges, pts, F, CARE)
+    sel = [z3.Bool(f'sel{i}') for i in range(len(primes))]
+    sol = z3.Solver()
+    sol.set('timeout', timeout_ms)
+    for p in on:
+        sol.add(z3.Or([sel[i] for i, b in enumerate(primes) if in_box(b, names, p)]))
+    if sel:
+        sol.add(z3.AtMost(*sel, k))
+    elif on:
+        return 'unsat', None
+    r = str(sol.check())
+    if r == 'sat':
+        m = sol.model()
+        return r, [b for i, b in enumerate(primes) if z3.is_true(m.eval(sel[i], model_completion=True))]
     return r, None
 
 
